@@ -387,6 +387,52 @@ def reneg_case(item):
     return sc.name, victim, fails, sig
 
 
+LATE_KINDS = ["CCS", "CCS_PLAIN", "FIN", "SHD", "CERT_EMPTY", "CKE", "CV",
+              "SKE", "EE", "CR", "HS99"]
+
+
+def late_case(item):
+    """After both ends completed: the peer sends one handshake-phase message
+    (under the current keys, or a bare ChangeCipherSpec record) followed by
+    application data.  Nothing of this is allowed any more: the victim must
+    answer with a fatal alert and deliver no data."""
+    from ..puppet import build_insert
+    idx, tier, seed, victim, kind = item
+    sc = scenarios(tier)[idx]
+    pair, out = S.connect(sc, seed=seed)
+    if out["C"].status != "ok" or out["S"].status != "ok":
+        return sc.name, victim, kind, ["honest failed"], None
+    tls13 = sc.version >= (3, 4)
+    if kind == "CR" and tls13 and victim == "C" and sc.client_cred:
+        # post-handshake authentication: a CertificateRequest is legal
+        return sc.name, victim, kind, [], ("legal",)
+    pair.drain()
+    peer_who = "S" if victim == "C" else "C"
+    peer = pair.ep(peer_who)
+    fails = []
+    if kind == "CCS_PLAIN":
+        pipe = pair.world.s2c if victim == "C" else pair.world.c2s
+        pipe.inject(b"\x14" + bytes([3, min(3, sc.version[1])]) +
+                    b"\x00\x01\x01")
+    else:
+        try:
+            msg = build_insert(peer, kind)
+        except ValueError:
+            return sc.name, victim, kind, [], None
+        W.run_gen(pair.world, peer_who,
+                  peer._sendMsg(msg, update_hashes=False))
+    pair.write(peer_who, b"data-after-late-message")
+    r = pair.read(victim, None, 1)
+    sig = (kind, r.sig()[:3])
+    if r.status == "ok" and r.value:
+        fails.append("late %s ignored: application data delivered after it"
+                     % kind)
+    elif r.status != "exc" or not isinstance(r.exc, E.TLSLocalAlert) or \
+            r.exc.level != 2:
+        fails.append("late %s answered with %r" % (kind, r))
+    return sc.name, victim, kind, fails, sig
+
+
 def run(res, tier, seed):
     res.coverage["rule"] = (
         "for each handshake flavour x victim role: the honest message "
@@ -460,6 +506,24 @@ def run(res, tier, seed):
                           {"part": "renegotiation", "scenario": name,
                            "victim": victim})
     res.section("renegotiation", cases=nr)
+    litems = [(i, tier, seed, v, k) for i in range(len(scs))
+              for v in ("C", "S") for k in LATE_KINDS]
+    nl = 0
+    for (name, victim, kind, fails, sig) in pmap(late_case, litems):
+        if sig is None and not fails:
+            continue
+        nl += 1
+        res.count()
+        res.outcome(("late", sig))
+        for f in fails:
+            res.violation({"part": "late-message", "victim": victim,
+                           "kind": kind, "tls13": "TLS1.3" in name,
+                           "what": f[:40]},
+                          {"scenario": name, "fail": f},
+                          {"part": "late-message", "scenario": name,
+                           "victim": victim, "kind": kind})
+    res.section("messages_after_completion", cases=nl, kinds=LATE_KINDS)
+    nr += nl
     res.coverage["states"] = states
     res.coverage["transitions"] = n + n2 + nr
     res.coverage["traces_validated_against_impl"] = n + n2 + nr
